@@ -52,6 +52,9 @@ UNITS = {
 
 # functions of the package by name (filled per repository): used to learn how many values a call returns
 ARITY_HELPERS: Dict[str, ast.FunctionDef] = {}
+# bare name -> the positional parameter lists of every definition of that name in the package (functions at any depth,
+# methods without their receiver, classes through __init__): used to spell keyword arguments positionally
+SIGNATURES: Dict[str, List[List[str]]] = {}
 
 PURE_CALLS = {'len', 'max', 'min', 'abs', 'float', 'int', 'fmax', 'fmin', 'fabs', 'sqrt', 'isinstance', 'range',
               'bool', 'tuple', 'slice'}
@@ -174,6 +177,25 @@ def compute_mutators(trees: List[ast.Module]):
     KNOWN_FUNCS.clear()
     MUTATORS.clear()
     KNOWN_FUNCS.update(n for n, _, _ in funcs)
+    SIGNATURES.clear()
+
+    def sig_of(fd: ast.FunctionDef, drop_first: bool):
+        a = fd.args
+        if a.vararg or a.posonlyargs or a.kwonlyargs:
+            return None
+        ps = [x.arg for x in a.args]
+        return ps[1:] if drop_first and ps else ps
+    for t in trees:
+        for n in ast.walk(t):
+            if isinstance(n, ast.ClassDef):
+                for m in n.body:
+                    if isinstance(m, ast.FunctionDef):
+                        sg = sig_of(m, True)
+                        SIGNATURES.setdefault(n.name if m.name == '__init__' else m.name, []).append(sg)
+        method_nodes = {id(m) for n in ast.walk(t) if isinstance(n, ast.ClassDef) for m in n.body if isinstance(m, ast.FunctionDef)}
+        for n in ast.walk(t):
+            if isinstance(n, ast.FunctionDef) and id(n) not in method_nodes:
+                SIGNATURES.setdefault(n.name, []).append(sig_of(n, False))
     # module-level functions by name (a name defined more than once is not used): how many values a call returns
     ARITY_HELPERS.clear()
     seen_names: Dict[str, int] = {}
@@ -4895,6 +4917,7 @@ def normalize_function(fn: ast.FunctionDef, module_helpers: Dict[str, ast.Functi
             return len(rets[0].value.elts)
         return None
 
+    _hoist_walrus(fn)
     _strip_pass(fn.body)
     fn.body = _expand_ifexp(fn.body)
     _CmpDirFn(fn)
@@ -4999,8 +5022,143 @@ def _CmpDirFn(fn: ast.FunctionDef):
     T().visit(fn)
 
 
+def _modern_syntax(tree: ast.Module):
+    """N44: what type hints, keyword spelling and f-strings add to a program without changing it is removed: annotations of
+    parameters / results, `x: T = v` is `x = v` (a bare `x: T` is nothing), a keyword argument of a call of a package
+    function whose definitions all have the same positional parameters is the positional argument it names (when the
+    keywords fill the next positions without a gap), `f"a{x!s}"` is `"a" + str(x)`, `[a, *rest, b]` is `[a] + list... `
+    (left to the canonicaliser)."""
+    class T(ast.NodeTransformer):
+        def visit_FunctionDef(self, node):
+            self.generic_visit(node)
+            for a in node.args.args + node.args.kwonlyargs + node.args.posonlyargs:
+                a.annotation = None
+            if node.args.vararg:
+                node.args.vararg.annotation = None
+            if node.args.kwarg:
+                node.args.kwarg.annotation = None
+            node.returns = None
+            if not node.body:
+                node.body = [ast.Pass()]
+            return node
+
+        def visit_AnnAssign(self, node):
+            self.generic_visit(node)
+            if node.value is None:
+                return ast.copy_location(ast.Pass(), node)
+            return ast.copy_location(ast.Assign(targets=[node.target], value=node.value), node)
+
+        def visit_JoinedStr(self, node):
+            self.generic_visit(node)
+            parts = []
+            for v in node.values:
+                if isinstance(v, ast.Constant):
+                    parts.append(v)
+                elif isinstance(v, ast.FormattedValue) and v.format_spec is None and v.conversion == 115:
+                    parts.append(ast.Call(func=ast.Name(id='str', ctx=ast.Load()), args=[v.value], keywords=[]))
+                else:
+                    return node
+            if not parts:
+                return ast.copy_location(ast.Constant(value=''), node)
+            e = parts[0]
+            for p_ in parts[1:]:
+                e = ast.BinOp(left=e, op=ast.Add(), right=p_)
+            return ast.copy_location(e, node)
+
+        def visit_Call(self, node):
+            self.generic_visit(node)
+            named = [k for k in node.keywords if k.arg is not None]
+            if not named or any(isinstance(a, ast.Starred) for a in node.args):
+                return node
+            f = node.func
+            nm = f.id if isinstance(f, ast.Name) else (f.attr if isinstance(f, ast.Attribute) else None)
+            sigs = SIGNATURES.get(nm) if nm else None
+            if not sigs or any(sg is None for sg in sigs) or len({tuple(sg) for sg in sigs}) != 1:
+                return node
+            params = sigs[0]
+            p = len(node.args)
+            names = [k.arg for k in named]
+            if p + len(named) > len(params) or set(names) != set(params[p:p + len(named)]) or len(set(names)) != len(names):
+                return node
+            in_order = names == params[p:p + len(named)]
+            if not in_order and not all(_is_pure_expr(k.value) for k in named):
+                return node
+            by = {k.arg: k.value for k in named}
+            node.args = list(node.args) + [by[q] for q in params[p:p + len(named)]]
+            node.keywords = [k for k in node.keywords if k.arg is None]
+            return node
+    T().visit(tree)
+    ast.fix_missing_locations(tree)
+
+
+def _hoist_walrus(fn: ast.FunctionDef) -> bool:
+    """N45: an assignment expression `(v := E)` that is evaluated unconditionally as part of a simple statement or of the test of
+    an `if` - not behind an `and` / `or` operand, a conditional expression, a comprehension or a lambda - with E side-effect
+    free is the statement `v = E` in front, the expression reads v."""
+    changed = False
+
+    def unconditional(root: ast.AST, target: ast.NamedExpr) -> bool:
+        def rec(n) -> bool:
+            if n is target:
+                return True
+            if isinstance(n, (ast.Lambda, ast.ListComp, ast.SetComp, ast.DictComp, ast.GeneratorExp)):
+                return False
+            if isinstance(n, ast.BoolOp):
+                return rec(n.values[0])
+            if isinstance(n, ast.IfExp):
+                return rec(n.test)
+            return any(rec(c) for c in ast.iter_child_nodes(n))
+        return rec(root)
+
+    def visit(block):
+        nonlocal changed
+        k = 0
+        while k < len(block):
+            st = block[k]
+            if isinstance(st, (ast.FunctionDef, ast.ClassDef)):
+                k += 1
+                continue
+            root = None
+            if isinstance(st, ast.If):
+                root = st.test
+            elif isinstance(st, (ast.Assign, ast.AugAssign, ast.Return, ast.Expr)) and st.value is not None:
+                root = st.value
+            hoisted = False
+            if root is not None:
+                for n in ast.walk(root):
+                    if isinstance(n, ast.NamedExpr) and isinstance(n.target, ast.Name) and _is_pure_expr(n.value) \
+                            and not any(isinstance(m, ast.NamedExpr) for m in ast.walk(n.value)) and unconditional(root, n):
+                        new = _fix(ast.Assign(targets=[ast.Name(id=n.target.id, ctx=ast.Store())], value=n.value), st)
+
+                        class R(ast.NodeTransformer):
+                            def visit_NamedExpr(self, node):
+                                if node is n:
+                                    return ast.copy_location(ast.Name(id=n.target.id, ctx=ast.Load()), node)
+                                self.generic_visit(node)
+                                return node
+                        if isinstance(st, ast.If):
+                            st.test = R().visit(st.test)
+                        else:
+                            st.value = R().visit(st.value)
+                        block.insert(k, new)
+                        changed = True
+                        hoisted = True
+                        break
+            if hoisted:
+                continue
+            for b in _blocks_of(st):
+                visit(b)
+            k += 1
+    visit(fn.body)
+    if changed:
+        ast.fix_missing_locations(fn)
+        _invalidate()
+    return changed
+
+
 def normalize_module(tree: ast.Module, imported_helpers: Optional[Dict[str, ast.FunctionDef]] = None,
                      backend: bool = False) -> ast.Module:
+    _modern_syntax(tree)
     helpers = dict(imported_helpers or {})
     helpers.update(_module_helpers(tree, backend))
     COMBINATIONS.clear()
